@@ -183,6 +183,15 @@ def conformance(toks, d, leaf, inner_cls, sql):
             bare_alias = nxt is not None and nxt.kind == "ID" and nxt.value == "k" and not (after is not None and after.kind == "OP" and after.text in ("+", "."))
             if d in ("mssql", "oracle") and bare_alias:
                 bad.append(("groupby-alias", "GROUP BY alias in a dialect that forbids it"))
+        if inner_cls == "same" and t.kind == "WORD" and t.value in ("UNION", "INTERSECT", "EXCEPT", "MINUS"):
+            j = i + 1
+            if j < len(toks) and toks[j].kind == "WORD" and toks[j].value == "ALL":
+                j += 1
+            wrapped = j < len(toks) and toks[j].kind == "OP" and toks[j].text == "("
+            if d == "mysql" and wrapped:
+                bad.append(("setop-wrapping", "operand parenthesised in a MySQL statement"))
+            if d != "mysql" and not wrapped:
+                bad.append(("setop-wrapping", "operand not parenthesised"))
         if leaf in ("bool", "bool_crit") and inner_cls == "same" and d == "sqlite":
             if t.kind == "WORD" and t.value in ("TRUE", "FALSE"):
                 bad.append(("boolean-form", t.text))
